@@ -71,7 +71,7 @@ def run(repo: Repo, rep: Report) -> None:
     rep.findings[:] = [f for f in rep.findings if f not in dropped]
 
     # ------------------------------------------------------------------ (b)
-    rep.rule("C02.z-benign-sites", "mutation sites on read paths exempt by an explicit table row (shared with C13)", floor=1)
+    rep.rule("C02.z-benign-sites", "mutation sites on read paths exempt by an explicit table row (shared with C13)", floor=0)
     rep.rule("C02.b-context-resolution-reads-dont-write",
              "from the read API of ConjunctiveGraph / Dataset no store mutation is reachable on the dataset itself "
              "(resolving a context never copies a foreign graph in on a read path)", floor=12)
